@@ -141,6 +141,19 @@ CLAIMED = {
             'common 7+4 field form; NOT under contract: scattered DamID layouts (DamID2_SCA, DamID2andT*), DamID2_c8_u3_cs2, '
             'DamID2_NO_OVERHANG, SCCHIC *_cs2 / *_pdt / direct ligation SINGLE_END, the restriction-bisulfite strategy, Hexamer.',
             '5/C02'),
+    'C01': ('Loop-body contract on the real DemultiplexingStrategyLoader.demultiplex for an arbitrary well-formed read (pair) and '
+            'arbitrary earlier state: an accepted pair is written once, mate m to output file m, as the record text of the strategy\'s '
+            'TaggedRecord (through the real FastqHandle.write / TaggedRecord.asFastq) and the yield counter grows by one; a rejected '
+            'pair is written once, mate m to rejects file m, as a complete 4-line record with its original bases and qualities and an '
+            'RR: reason (both the tagged and the raw fallback path), or dropped when no rejects handle exists; never both, never '
+            'neither; processed counter = pairs read. Paired/single end, with/without rejects handle, with/without index parser, '
+            'with/without maxReadPairs. FastqIterator.__next__ consumes four lines from every file in lock step and stops exactly '
+            'when a header is missing; FastqHandle.write sends record k to file k.',
+            'the selected strategy is used through its C02 contract (only NonMultiplexable escapes, one TaggedRecord per mate); '
+            'header-fits precondition (C04); FASTQ well-formedness A7; gzip text handles append (A4); one selected strategy; '
+            'one-file-per-cell output is C19; the strategies not covered by C02 (DamID scattered layouts etc.) are not covered here '
+            'either.',
+            '5/C01, appendix B.6'),
 }
 
 NOT_YET = 'check not built yet (framework under construction; see DESIGN.md section 5)'
